@@ -105,7 +105,14 @@ impl UnsafeProtocolChainConfig {
                 .strip_prefix("channel-")
                 .unwrap()
                 .parse::<u64>()
-                .is_ok();
+                .is_ok()
+            // `parse` also accepts a leading `+`: the sequence must be digits only.
+            && self
+                .ibc_channel_id
+                .strip_prefix("channel-")
+                .unwrap()
+                .chars()
+                .all(|c| c.is_ascii_digit());
         if !channel_id_correct {
             return Err(ContractError::IbcChannelConfigWrong {});
         }
